@@ -55,7 +55,7 @@ def resolve_hook(P, H, log, protected):
     return h
 
 
-@contract("C06", "resolve_target", [MD + "Alias.resolve_target", MD + "Alias._resolve_target"], floor=7, replay="replay_alias_graphs")
+@contract("C06", "resolve_target", [MD + "Alias.resolve_target", MD + "Alias._resolve_target"], floor=7, replay="replay_resolve_target")
 def c_resolve_target(P):
     H = Heap(P)
     a, coll = setup_alias(P, H)
